@@ -35,8 +35,7 @@ theorem cntOf_set {pcs : List PC} {i : Nat} {p : PC} (q : PC) (h : pcs[i]? = som
       · simp [h1]; omega
 
 theorem cls_waiting (p : PC) : p.cls = .waiting ↔ p = .waiting := by
-  cases p <;> simp [PC.cls]
-  rename_i b; cases b <;> simp
+  cases p <;> simp [PC.cls] <;> (rename_i b; cases b <;> simp)
 
 theorem cntOf_wakeAll (pcs : List PC) : cntOf (wakeAll pcs) = cwakeAll (cntOf pcs) := by
   funext c
@@ -136,14 +135,22 @@ theorem sim_step {s s' : State} {e : Event} (h : step repaired s e = some s') :
     rename_i hi
     obtain ⟨hk, rfl⟩ := h
     have hk' : ¬ 0 < s.kill := by omega
-    simpa [cstep, absEvent, PC.cls, hk', abs] using mv_abs s (.chk (s.kill != -1)) hi
+    by_cases hj : s.kill = -1
+    · have hb : (s.kill != -1) = false := by simp [hj]
+      have := mv_abs s (.chk false) hi
+      rw [hb]
+      simpa [cstep, absEvent, PC.cls, hk', abs, hb] using this
+    · have hb : (s.kill != -1) = true := by simp [hj]
+      have := mv_abs s (.chk true) hi
+      rw [hb]
+      simpa [cstep, absEvent, PC.cls, hk', abs, hb] using this
   | pop i t =>
     simp only [step] at h
     split at h <;> try (simp at h)
     rename_i b t' rest hi hq
     obtain ⟨rfl, rfl⟩ := h
     have := mv_abs { s with queue := rest } (.run t) hi
-    simpa [cstep, absEvent, PC.cls, abs, hq, State.goto] using this
+    cases b <;> simpa [cstep, absEvent, PC.cls, abs, hq, hi, State.goto] using this
   | popNone i =>
     simp only [step] at h
     split at h <;> try (simp at h)
@@ -220,6 +227,21 @@ theorem sim_step {s s' : State} {e : Event} (h : step repaired s e = some s') :
     simp only [step] at h
     simp at h; subst h
     simp [cstep, absEvent, abs]
+  | swcSet c =>
+    simp only [step] at h
+    have hlive : s.live = clive (cntOf s.pcs) := rfl
+    rw [hlive] at h
+    split at h
+    · rename_i h1
+      simp at h; subst h
+      simp [cstep, absEvent, abs, cntOf_spawn, h1]
+    · split at h
+      · rename_i h1 h2
+        simp at h; subst h
+        simp [cstep, absEvent, abs, h1, h2]
+      · rename_i h1 h2
+        simp at h; subst h
+        simp [cstep, absEvent, abs, h1, h2]
   | swcLock =>
     simp only [step] at h
     simp at h
